@@ -1,4 +1,5 @@
 import DhcpProofs.Lemmas.ClientTimed
+import DhcpProofs.Lemmas.ClientBytes
 /-
   C12 — retransmission follows the configured schedule exactly.
   Property theorems only (helper lemmas: DhcpProofs/Lemmas/ClientTimed.lean).
@@ -10,10 +11,16 @@ import DhcpProofs.Lemmas.ClientTimed
   set of results a script of external events allows (what the driver prints
   and the client4/client6 streams compare with the real clients).
 
-  "Identical datagram, requested destination" (`C12_bytes`) is carried by the
-  harness: every WriteTo of the real client is compared byte for byte with the
-  request's encoding and with the destination (streams client4/client6 and
-  oracle c12); the model has no bytes.
+  "Identical datagram, requested destination" (`C12_bytes*`, last section):
+  `runObsB c T n obs H` is the same machine with every transmission recorded
+  in full (instant, bytes, destination).  `c : Call Req Dest` describes the
+  call: `c.enc` is `ToBytes` (abstract), `c.dest` the destination argument,
+  `c.reqAt k` the value of the request when try `k` runs `send` (the code
+  calls `msg.ToBytes()` on every try).  Forgetting bytes and destinations
+  gives `runObs` (`C12_bytes_projection`), so all theorems above hold of it.
+  The streams client4/client6 and oracle c12 compare every WriteTo of the real
+  clients byte for byte with the request's encoding and with the destination;
+  the driver prints the flags the model computes (`wire`) next to each instant.
 -/
 namespace Dhcp.Client.Timed
 
@@ -130,5 +137,119 @@ example : runObs 1000 (-1) [⟨400, .rej, 0, true⟩] 40000 =
 
 /-- the hypotheses of `C12_times` are satisfiable with defaults of the clients (5 s, 3 tries). -/
 example : NoOverflow 5000000000 3 ∧ (0 : Int) < 5000000000 := by unfold NoOverflow; decide
+
+/-! ## bytes and destination
+
+The machine with transmission records.  No hypothesis on `T`, `n`, the
+observations or the horizon in `C12_bytes`, `C12_bytes_at`, `C12_bytes_mutated`:
+they hold of every try of every call, whatever the caller observes. -/
+
+/-- **C12 (projection).** The machine with bytes is the machine of instants
+with more in its records: same instants, same return.  Every theorem above is
+a theorem about `runObsB` through these two equations. -/
+theorem C12_bytes_projection {Req Dest : Type} (c : Call Req Dest) (T n : Int) (obs : List Obs) (H : Int) :
+    (runObsB c T n obs H).sent.map (·.t) = (runObs T n obs H).txs ∧
+    (runObsB c T n obs H).ret = (runObs T n obs H).ret := by
+  have h := runObsB_erase c T n obs H
+  rw [← h]; exact ⟨rfl, rfl⟩
+
+/-- **C12 (identical datagram, requested destination).** A request that is not
+modified during the call (`reqAt k = r` for every try `k`): EVERY transmission
+of the call — all tries, any `T`, any retry count, any observation sequence,
+any horizon — carries exactly `enc r` and goes to the requested destination. -/
+theorem C12_bytes {Req Dest : Type} (c : Call Req Dest) (r : Req) (T n : Int) (obs : List Obs) (H : Int)
+    (hreq : ∀ k, c.reqAt k = r) :
+    ∀ tx ∈ (runObsB c T n obs H).sent, tx.bytes = c.enc r ∧ tx.dest = c.dest := by
+  intro tx htx
+  rw [(runObsB_sent c T n obs H).1] at htx
+  obtain ⟨i, hi⟩ := List.getElem?_of_mem htx
+  rw [wire_getElem?] at hi
+  cases hl : (runObs T n obs H).txs[i]? with
+  | none => rw [hl] at hi; cases hi
+  | some t => rw [hl] at hi; cases hi; exact ⟨by simp [Call.tx, hreq], rfl⟩
+
+/-- **C12 (which request each transmission carries), general form.** Whatever
+the caller does to the request during the call: the `j`-th transmission is made
+by try `j`, at the `j`-th instant of the timed model, carries the encoding of
+the request AS IT IS WHEN TRY `j` RUNS `send`, and goes to the requested
+destination. -/
+theorem C12_bytes_at {Req Dest : Type} (c : Call Req Dest) (T n : Int) (obs : List Obs) (H : Int) :
+    (runObsB c T n obs H).sent = wire c (runObs T n obs H).txs ∧
+    ∀ j tx, (runObsB c T n obs H).sent[j]? = some tx →
+      (runObs T n obs H).txs[j]? = some tx.t ∧ tx.bytes = c.enc (c.reqAt j) ∧ tx.dest = c.dest := by
+  refine ⟨(runObsB_sent c T n obs H).1, fun j tx h => ?_⟩
+  rw [(runObsB_sent c T n obs H).1, wire_getElem?] at h
+  cases hl : (runObs T n obs H).txs[j]? with
+  | none => rw [hl] at h; cases h
+  | some t => rw [hl] at h; cases h; exact ⟨rfl, rfl, rfl⟩
+
+/-- **C12 (the caller changes the request between tries).** The request is `r`
+up to and including the `send` of try `k` and `r'` from then on (changed while
+try `k` waits): transmissions `0..k` carry `enc r`, every later one carries
+`enc r'` — the NEW encoding is sent, as the code does (`msg.ToBytes()` on every
+try); instants and destination are unaffected. -/
+theorem C12_bytes_mutated {Req Dest : Type} (enc : Req → List UInt8) (r r' : Req) (k : Nat) (dest : Dest)
+    (T n : Int) (obs : List Obs) (H : Int) :
+    (runObsB (Call.mutatedAfter enc r r' k dest) T n obs H).sent.map (·.t) = (runObs T n obs H).txs ∧
+    ∀ j tx, (runObsB (Call.mutatedAfter enc r r' k dest) T n obs H).sent[j]? = some tx →
+      tx.dest = dest ∧ (j ≤ k → tx.bytes = enc r) ∧ (k < j → tx.bytes = enc r') := by
+  refine ⟨(C12_bytes_projection _ T n obs H).1, fun j tx h => ?_⟩
+  obtain ⟨_, hb, hd⟩ := (C12_bytes_at (Call.mutatedAfter enc r r' k dest) T n obs H).2 j tx h
+  refine ⟨hd, fun hj => ?_, fun hj => ?_⟩
+  · rw [hb]; simp [Call.mutatedAfter, hj]
+  · rw [hb]; simp [Call.mutatedAfter, Nat.not_le.mpr hj]
+
+/-- **C12, first sentence of the property in one statement.** No acceptable
+response, timeout `T > 0`, `n ≥ 0` tries, request not modified: the call
+transmits the identical datagram `enc r` exactly `n` times, at `T·(2^k − 1)`,
+`k < n`, to the requested destination, and then fails with the no-response
+error at `T·(2^n − 1)`. -/
+theorem C12_identical_datagram {Req Dest : Type} (enc : Req → List UInt8) (r : Req) (dest : Dest)
+    (T n : Int) (obs : List Obs) (H : Int) (hT : 0 < T) (hn : 0 ≤ n) (_hov : NoOverflow T n.toNat)
+    (hq : ∀ o ∈ obs, o.kind = .irr ∨ o.kind = .rej) (hH : T * (2 ^ n.toNat - 1) ≤ H) :
+    runObsB (Call.const enc r dest) T n obs H =
+      ⟨(List.range n.toNat).map (fun k => ⟨T * (2 ^ k - 1), enc r, dest⟩),
+       some (T * (2 ^ n.toNat - 1), .noResp)⟩ := by
+  rw [runObsB_eq, C12_times T n obs H hT hn _hov hq hH]
+  simp only [wire_map_range]
+  rfl
+
+/-- **C12 (a response accepted during try `k`), with bytes**: exactly `k + 1`
+transmissions of the identical datagram to the requested destination, none
+after. -/
+theorem C12_stop_bytes {Req Dest : Type} (enc : Req → List UInt8) (r : Req) (dest : Dest)
+    (T n : Int) (pre post : List Obs) (τ : Int) (tag : Nat) (H : Int) (k : Nat)
+    (hT : 0 < T) (hk : n < 0 ∨ (k : Int) < n)
+    (hq : ∀ o ∈ pre, o.kind = .irr ∨ o.kind = .rej) (hpre : ∀ o ∈ pre, o.t ≤ τ)
+    (hk1 : T * (2 ^ k - 1) ≤ τ) (hk2 : τ < T * (2 ^ (k + 1) - 1)) :
+    runObsB (Call.const enc r dest) T n (pre ++ ⟨τ, .acc, tag, true⟩ :: post) H =
+      ⟨(List.range (k + 1)).map (fun j => ⟨T * (2 ^ j - 1), enc r, dest⟩), some (τ, .resp tag)⟩ := by
+  rw [runObsB_eq, C12_stop T n pre post τ tag H k hT hk hq hpre hk1 hk2]
+  simp only [wire_map_range]
+  rfl
+
+/-- **C12 (bytes) for the script-level model**: for every result `r` the
+script-level model allows, the records the driver prints with it (`wire c r.txs`)
+are what the machine with bytes transmits on some observation sequence of that
+script; with an unmodified request each of them is `enc req` to `dest`. -/
+theorem C12_bytes_script {Req Dest : Type} (c : Call Req Dest) (T n : Int) (evs : List Event) (H : Int)
+    (r : Result) (hr : r ∈ runCall T n evs H) :
+    (∃ obs, runObsB c T n obs H = ⟨wire c r.txs, r.ret⟩) ∧
+    ∀ q, (∀ k, c.reqAt k = q) → ∀ tx ∈ wire c r.txs, tx.bytes = c.enc q ∧ tx.dest = c.dest := by
+  obtain ⟨obs, rfl⟩ := runCall_sound T n evs H r hr
+  refine ⟨⟨obs, runObsB_eq c T n obs H⟩, fun q hq tx htx => ?_⟩
+  rw [← (runObsB_sent c T n obs H).1] at htx
+  exact C12_bytes c q T n obs H hq tx htx
+
+/-! Non-vacuity with bytes: requests are numbers, `enc v = [v, 99]`, destination 67. -/
+
+/-- unmodified request 7: three transmissions of `[7, 99]` to 67 -/
+example : (runObsB (Call.const (fun v : UInt8 => [v, 99]) 7 (67 : Nat)) 1000 3 [⟨400, .rej, 0, true⟩] 10000).sent =
+    [⟨0, [7, 99], 67⟩, ⟨1000, [7, 99], 67⟩, ⟨3000, [7, 99], 67⟩] := by decide
+
+/-- the caller replaces 7 by 8 while try 0 waits: the first datagram is
+`[7, 99]`, the retransmissions are `[8, 99]` — same instants, same destination -/
+example : (runObsB (Call.mutatedAfter (fun v : UInt8 => [v, 99]) 7 8 0 (67 : Nat)) 1000 3 [] 10000).sent =
+    [⟨0, [7, 99], 67⟩, ⟨1000, [8, 99], 67⟩, ⟨3000, [8, 99], 67⟩] := by decide
 
 end Dhcp.Client.Timed
